@@ -152,6 +152,77 @@ fn structured(fmt: Fmt, exp: i32) -> Vec<u64> {
     out
 }
 
+
+/// The part of the check that depends on the target's `usize` / limb width, small enough for an interpreter:
+/// every mask helper for every width in all configurations, and the basic kept x basic dropped grid for every
+/// subnormal shift (biased exponents -63..=2) plus a few normal and overflowing exponents.  Run by the
+/// 32-bit stage (Miri, --target i686-unknown-linux-gnu).
+pub fn check_width_dependent(stats: &mut Stats) -> Result<u64, Failure> {
+    let mut n_eval = 0u64;
+    for cfg in CFGS.iter() {
+        for n in 0..=64u64 {
+            let want_mask = if n == 64 { u64::MAX } else { (1u64 << n) - 1 };
+            let want_half = if n == 0 { 0 } else { 1u64 << (n - 1) };
+            for (which, want, name) in [(0u32, want_mask, "lower_n_mask"), (1, want_half, "lower_n_halfway")] {
+                let got = catch(|| (cfg.masks)(which, n));
+                n_eval += 1;
+                if got != Ok(want) {
+                    return Err(Failure::violation(
+                        format!("config {}: {}({}) = {:?}, expected {:#x} (pointer width {})", cfg.name, name, n, got, want, usize::BITS),
+                        format!("mask:{name}:{n}"),
+                        json!({"kind": "mask", "config": cfg.name, "helper": name, "n": n, "expected": want, "observed": format!("{:?}", got)}),
+                    ));
+                }
+            }
+            if n < 64 {
+                let got = catch(|| (cfg.masks)(2, n));
+                n_eval += 1;
+                if got != Ok(1u64 << n) {
+                    return Err(Failure::violation(
+                        format!("config {}: nth_bit({}) = {:?} (pointer width {})", cfg.name, n, got, usize::BITS),
+                        format!("mask:nth_bit:{n}"),
+                        json!({"kind": "mask", "config": cfg.name, "helper": "nth_bit", "n": n, "expected": 1u64 << n, "observed": format!("{:?}", got)}),
+                    ));
+                }
+            }
+        }
+    }
+    for fmt in [Fmt::F64, Fmt::F32] {
+        let (_, hi) = exp_range(fmt);
+        let mut exps: Vec<i32> = (-63..=2).collect();
+        exps.extend([hi / 2, hi - 60, hi - 54, hi - 53, hi]);
+        for exp in exps {
+            // basic patterns only: top bit, all ones, around the half of the cut
+            let p = fmt.mbits() as i64 + 1;
+            let normal_shift = 64 - p;
+            let shift = if -(exp as i64) >= normal_shift { (1 - exp as i64).min(64) } else { normal_shift } as u32;
+            let mask = if shift == 64 { u64::MAX } else { (1u64 << shift) - 1 };
+            let half = 1u64 << (shift - 1);
+            let ds = [0, 1 & mask, half.wrapping_sub(1) & mask, half, (half + 1) & mask, mask];
+            let kept_bits = 64 - shift;
+            let ks: Vec<u64> = if kept_bits == 0 {
+                vec![0]
+            } else {
+                let top = 1u64 << (kept_bits - 1);
+                let all = if kept_bits == 64 { u64::MAX } else { (1u64 << kept_bits) - 1 };
+                vec![top, top | 1, all]
+            };
+            for &k in &ks {
+                for &d in &ds {
+                    let m = (if shift == 64 { d } else { (k << shift) | d }) | (1u64 << 63);
+                    for nearest in [true, false] {
+                        for ci in [0usize, 1] {
+                            check(fmt, m, exp, nearest, &CFGS[ci], stats)?;
+                            n_eval += 1;
+                        }
+                    }
+                }
+            }
+        }
+    }
+    Ok(n_eval)
+}
+
 pub fn run(ctx: &Ctx) -> i32 {
     let mut rep = Report::new(
         "rounding::round::<F,_> is called directly with the nearest-tie-even callback and with round_down, then packed \
@@ -165,7 +236,9 @@ pub fn run(ctx: &Ctx) -> i32 {
          (significand, exponent) pairs; plus the mask helpers lower_n_mask / lower_n_halfway for every n in 0..=64 and \
          nth_bit for 0..=63. Oracle: exact integer arithmetic (u128) round-half-even / truncation of \
          significand*2^(exp-bias), incl. subnormals, carry into the next binade, subnormal->min normal, overflow->inf. \
-         Every grid point is non-trivial (it sits on a rounding decision); distinct by (format, significand, exponent, mode).",
+         Every grid point is non-trivial (it sits on a rounding decision); distinct by (format, significand, exponent, mode). \
+         32-bit stage: the mask helpers for every width and the basic grid for every subnormal shift are re-run by Miri \
+         with --target i686-unknown-linux-gnu (usize = 32 bits), because width-dependent slips are invisible on the host.",
     );
     rep.assume("truncating variant above the largest finite value: both +inf (what the primitive documents) and MAX (the literal 'largest float not above') are accepted");
     rep.assume("exp = -64 (a 65-bit shift) is outside the stated domain and not generated");
